@@ -152,6 +152,8 @@ def run_history(ctx, rng, length, hid):
                     davsim.vary_wire(rng, r, p=0.5)
             elif r["method"] == "MOVE":
                 davsim.vary_wire(rng, r, p=0.4)
+            if r["method"] in ("PUT", "DELETE") and not r.get("as_collection") and rng.random() < 0.12:
+                r["trailing_slash"] = True      # the same resource, URL written with a trailing slash
             reqs.append(r)
             before = sim.real_dump()
             true_before = cache_free_etag(sim.app, "/" + "/".join(r["path"])) if r.get("if_match_present") and r.get("if_match_value") else None
